@@ -166,6 +166,12 @@ func structuralMutants(seed p7seed, attacker *keys.Key, attackerCertRaw, attacke
 				}
 			}
 		}
+		// the [0] wrapper kept but emptied (A0 00): content is "there" and empty
+		{
+			t := base.clone()
+			t.encap.Kids[1].Kids = []*refder.Tree{}
+			emit("content-wrapper-emptied", "", t)
+		}
 		// Spc digest rewritten inside the content (Authenticode)
 		t := base.clone()
 		c := t.encap.Kids[1].Kids[0]
